@@ -47,7 +47,11 @@ ASSUMPTIONS = ['dict stages register distinct workers under distinct keys '
                'the model']
 
 CODES = [None, 0, 1, -9]
-STAGE_OF_FIXTURE = {'mapping': 'mapping', 'stats': 'stats',
+STAGE_OF_FIXTURE = {'mapping': 'mapping', 'mapping.csvOnly': 'mapping',
+                    'mapping.logOnly': 'mapping',
+                    'mapping.jsonOnly': 'mapping',
+                    'mapping.h5Only': 'mapping', 'stats.copy': 'stats',
+                    'stats': 'stats',
                     'refMarkers': 'refMarkers',
                     'refMarkers.transpose': 'refMarkers',
                     'pMask': 'pMask', 'pMarkers': 'pMarkers',
@@ -233,20 +237,25 @@ def clear(st):
         st.result = None
 
 
-def mapping_failure_problems(obs):
-    """the C14 demands on what a failed mapping run leaves behind"""
+def mapping_failure_problems(obs, st=None):
+    """the C14 demands on what a failed mapping run leaves behind: no result
+    records, no CSV, no success line anywhere, the log written; the JSON /
+    HDF5 outputs, where requested, written without results"""
+    want_json = getattr(st, 'want_json', True)
+    want_h5 = getattr(st, 'want_h5', True)
     probs = []
-    if not obs['json_exists']:
+    if obs['json_exists']:
+        if obs['json_keys'] == 'unparseable':
+            probs.append('JSON output unparseable')
+        else:
+            if 'results' in obs['json_keys']:
+                probs.append('JSON output has results')
+            if 'log' not in obs['json_keys']:
+                probs.append('JSON output has no log')
+            if any(SUCCESS_LINE in l for l in (obs['log_in_json'] or [])):
+                probs.append('success line in the JSON log')
+    elif want_json:
         probs.append('no JSON output written')
-    elif obs['json_keys'] == 'unparseable':
-        probs.append('JSON output unparseable')
-    else:
-        if 'results' in obs['json_keys']:
-            probs.append('JSON output has results')
-        if 'log' not in obs['json_keys']:
-            probs.append('JSON output has no log')
-        if any(SUCCESS_LINE in l for l in (obs['log_in_json'] or [])):
-            probs.append('success line in the JSON log')
     if obs['csv_exists']:
         probs.append('CSV written')
     if not obs['log_exists']:
@@ -258,7 +267,7 @@ def mapping_failure_problems(obs):
             probs.append('HDF5 output has datasets %r' % obs['h5_datasets'])
         if obs['h5_metadata_keys'] and 'results' in obs['h5_metadata_keys']:
             probs.append('HDF5 metadata has results')
-    else:
+    elif want_h5:
         probs.append('no HDF5 output written')
     return probs
 
@@ -373,11 +382,11 @@ def check_fault(ctx, fixture, prob_seed, n_leaves, n_proc, worker, point,
         clear(st)
         return
     # outputs
-    if fixture == 'mapping':
+    if fixture.startswith('mapping'):
         obs = st.observe()
         detail['observed'] = {k: v for k, v in obs.items()
                               if k != 'log_text'}
-        probs = mapping_failure_problems(obs)
+        probs = mapping_failure_problems(obs, st)
         if probs:
             if is_cleanup_race(err):
                 ctx.count('mapping:cleanup-race(natural)')
@@ -418,21 +427,25 @@ def check_fault(ctx, fixture, prob_seed, n_leaves, n_proc, worker, point,
         elif not fixture.endswith('.transpose') and impl_code != want_code:
             disagree = 'implementation reported exit code %r, expected %r' \
                 % (impl_code, want_code)
-        elif fixture == 'mapping':
-            w = ctx.model('procs.runMapping', {'assignRaises': True,
-                                               'csvRequested': True})
+        elif fixture.startswith('mapping'):
+            w = ctx.model('procs.runMapping', {
+                'assignRaises': True, 'csvRequested': st.want_csv,
+                'jsonRequested': st.want_json,
+                'hdf5Requested': st.want_h5})
             obs = st.observe()
             impl_w = {
                 'raised': True, 'csv': obs['csv_exists'],
                 'json': [k for k in ('results', 'marker_genes',
                                      'taxonomy_tree', 'n_unmapped_genes',
                                      'config', 'log', 'metadata')
-                         if k in (obs['json_keys'] or [])],
+                         if k in (obs['json_keys'] or [])]
+                if obs['json_exists'] else None,
                 'hdf5': {'metadata': [k for k in ('config', 'log',
                                                   'metadata')
                                       if k in (obs['h5_metadata_keys']
                                                or [])],
-                         'datasets': obs['h5_datasets']},
+                         'datasets': obs['h5_datasets']}
+                if obs['h5_exists'] else None,
                 'log': None}
             w2 = dict(w)
             w2['log'] = None
@@ -476,6 +489,9 @@ def run_faults(ctx):
         prob = make_problem(prob_seed, n_leaves)
         with pipeline.workdir('ctmverif_c14_') as d:
             for fixture, cls in stagefix.STAGES.items():
+                if ctx.tier == 'quick' and fixture in ('mapping.jsonOnly',
+                                                       'mapping.h5Only'):
+                    continue
                 t_fix = ctx.elapsed()
                 with pipeline.quiet():
                     st = cls(prob, d)
@@ -498,7 +514,16 @@ def run_faults(ctx):
                         for mi, mode in enumerate(faults.MODES):
                             # quick: all 9 combinations on the last worker,
                             # one mode per point on the first
-                            if fixture == 'selection.behemoth':
+                            if fixture in ('mapping.csvOnly',
+                                           'mapping.logOnly',
+                                           'mapping.jsonOnly',
+                                           'mapping.h5Only', 'stats.copy'):
+                                # output-configuration variants: quick =
+                                # last worker, before / after, 3 modes
+                                if ctx.tier == 'quick' and (
+                                        w != workers[-1] or point == 'mid'):
+                                    continue
+                            elif fixture == 'selection.behemoth':
                                 # every worker (each behemoth in turn):
                                 # the scheduler treats them differently
                                 if ctx.tier == 'quick' and point == 'mid':
